@@ -47,6 +47,8 @@ def gen_cases(tier, seed):
     for k in range(48 if tier == "quick" else 800):
         # appended later: rank-changing memory-only operators inside accelerated flows, EXP / SQUARED_DIFFERENCE lowerings
         cases.append({"family": ["shape-ops", "approx-tail2", "grouped-conv", "lstm"][k % 4], "nseed": int(seed * 1000003 + 900000 + k), "cfg": cfggen.rand_cfg(rng), "cli": k % 6 == 0})
+    for k in range(30 if tier == "quick" else 500):
+        cases.append({"family": "lstm", "nseed": int(seed * 1000003 + 970000 + k), "cfg": cfggen.rand_cfg(rng), "cli": k % 6 == 0})
     for k in range(24 if tier == "quick" else 400):
         # appended later: the output of a compilation is compiled again
         cases.append({"family": ["tiny", "exact-chain", "cpu-mix", "shape-ops", "approx-tail", "lut-stress"][k % 6], "nseed": int(seed * 1000003 + 950000 + k), "cfg": cfggen.rand_cfg(rng), "cli": False, "recompile": True})
@@ -136,6 +138,10 @@ def run_case(case):
                                                                                                                        "stderr_tail": (rc2.stderr or "")[-1500:]}})
         elif v3 == "timeout":
             inconc = "cli watchdog (recompile)"
+    if net.info["family"] == "lstm":
+        # findings about the LSTM unrolling are keyed with the operator: a crash at the same frame for another reason / another network is a different finding
+        for v_ in violations:
+            v_["mech"] += ":lstm"
     sets["outcome"] = [final]
     if final == "ok-rejected":
         sets["reject_msgs"] = [(msg or "")[:80]]
